@@ -311,7 +311,7 @@ class EncodeRows(Filter[Iterable[Union[Dense,Sparse]],Iterable[Union[Dense,Spars
             for k,v in enc.items():
                 try:
                     if v('0')!=0: nsp.add(k)
-                except: pass #pragma: no cover
+                except Exception: pass #pragma: no cover
             return ( EncodeSparse(row, enc, nsp) for row in rows )
 
 class DropOne(Dense_):
@@ -402,7 +402,7 @@ class DropRows(Filter[Iterable[Union[Dense,Sparse]], Iterable[Union[Dense,Sparse
                 selects = [ not any(i in drop_cols for i in I) for I in enumerate(first.headers) ]
                 headers = first.headers.items()
                 indexes = list(compress(range(len(first)), selects))
-            except:
+            except Exception:
                 selects = [ i not in drop_cols for i in range(len(first)) ]
                 headers = []
                 indexes = list(compress(range(len(first)), selects))
